@@ -17,11 +17,15 @@ ALL_PROP = ["ResetIsInit", "DoneAbsorbing"]
 def load_corpus(names=None):
     """[(name, {"files":..,"main":..})] of the hand-written VM corpus (all terminate)."""
     out = []
-    for f in sorted(glob.glob(os.path.join(CORPUS, "*.theo"))):
+    for f in sorted(glob.glob(os.path.join(CORPUS, "*.theo")) + glob.glob(os.path.join(CORPUS, "*.json")),
+                    key=os.path.basename):
         n = os.path.basename(f)[:-5]
         if names and n not in names:
             continue
-        out.append((n, {"files": {"m": open(f).read()}, "main": "m"}))
+        if f.endswith(".json"):
+            out.append((n, json.load(open(f))))      # several files: {"files":{..},"main":..}
+        else:
+            out.append((n, {"files": {"m": open(f).read()}, "main": "m"}))
     return out
 
 
@@ -123,7 +127,15 @@ def replay_cases(chk, th, sources, cases, fields, what):
                 elif "obs" in r:
                     got[r["i"]] = r["obs"]
             if rc not in (0, 75):
-                raise Broken("vmreplay exited %s on %s: %s" % (rc, name, err[-1500:]))
+                begun = [r["b"] for r in recs if "b" in r]
+                if (rc < 0 or rc in (97, 98, 99, 134, 139)) and begun:
+                    c = cs[begun[-1]]
+                    hist = [st["c"] for st in c["h"]]
+                    chk.violation("%s:abort:%s" % (what, name), "the real VM crashed (exit %s) while replaying history %s on program %s, "
+                                  "which the specification completes: %s" % (rc, hist, name, err[-1200:]),
+                                  {"program": src, "history": hist, "stderr": err[-4000:]})
+                else:
+                    raise Broken("vmreplay exited %s on %s: %s" % (rc, name, err[-1500:]))
         for i, c in enumerate(cs):
             if i not in got:
                 continue
